@@ -392,8 +392,12 @@ def check_spki(cfg, crate, rep):
         key = "%s|%s" % (cfg, fn)
         calls = [c for c, a, n, cnd, f in I.calls]
         rep.ob("C11.spki", key + "|iterates-all", "sign_algo::SignatureAlgorithm::iter" in calls, "the algorithm is chosen by scanning the full algorithm list")
-        trailing = [c for c, v, n, f in I.fails if f == fn and any(a[0] == "empty" and a[1].endswith(".0") for a in F.atoms(c))]
-        rep.ob("C11.spki", key + "|trailing-bytes", len(trailing) == 1, "trailing bytes after the SubjectPublicKeyInfo are rejected", found=[F.show(c) for c, v, n, f in I.fails if f == fn])
+        # a refusal that fires whenever the remainder of the *outer* parse (of the input itself) is not empty
+        def _rem_atoms(c):
+            return [a for a in F.atoms(c) if a[0] == "empty" and a[1].endswith(".0") and "(spki_der)" in a[1] and "AlgorithmIdentifier" not in a[1]]
+        trailing = [c for c, v, n, f in I.fails if f == fn and _rem_atoms(c)
+                    and F.evalf(c, {b: (b[0] == "variant" and b[2] == "Ok" and "(spki_der)" in b[1]) for b in F.atoms(c)})]
+        rep.ob("C11.spki", key + "|trailing-bytes", len(trailing) >= 1, "trailing bytes after the SubjectPublicKeyInfo are rejected", found=[F.show(c) for c, v, n, f in I.fails if f == fn])
         # semantic form: some equality test compares the *whole* AlgorithmIdentifier of the parsed key (the value selected
         # as `.algorithm` directly from the parsed SubjectPublicKeyInfo, nothing deeper) with an AlgorithmIdentifier decoded
         # from what the candidate algorithm's own writer produced
